@@ -121,13 +121,18 @@ func C06(tier string) int {
 	}
 	// cascade delete with three referrers, the target deleted in the same transaction as an earlier change of
 	// the referring store: neither the target nor a cascaded referrer may leave a trace
-	for _, wiring := range []fkWiring{fkIdxCascade, fkcCascadeNullable} {
-		fs := newFkScenario(wiring, []string{"#o1", "#o2"}, []string{"#w1", "#w2", "#w3"}, "3 referrers, (op; deleteOwner) per tx, no-trace oracle")
+	// ... and the self-referential wirings (an entity referring to itself and to its peers), restrict and cascade
+	for _, wiring := range []fkWiring{fkIdxCascade, fkcCascadeNullable, fkSelfNone, fkSelfIdxNullable, fkSelfCascade} {
+		owners, del := []string{"#o1", "#o2"}, "deleteOwner("
+		if wiring.self() {
+			owners, del = nil, "deleteWidget("
+		}
+		fs := newFkScenario(wiring, owners, []string{"#w1", "#w2", "#w3"}, "3 referrers, (op; delete of the target) per tx, no-trace oracle")
 		var fprogs [][]int
 		for i, a := range fs.Ops() {
 			fprogs = append(fprogs, []int{i})
 			for j, b := range fs.Ops() {
-				if strings.HasPrefix(b.Name, "deleteOwner(") && !strings.HasPrefix(a.Name, "deleteOwner(") {
+				if strings.HasPrefix(b.Name, del) && !strings.HasPrefix(a.Name, del) {
 					fprogs = append(fprogs, []int{i, j})
 				}
 			}
